@@ -6,6 +6,7 @@ package main
 import (
 	"encoding/binary"
 	"sort"
+	"time"
 )
 
 // specification tables (common-structures: SigningPublicKey, Signature, PublicKey)
@@ -34,8 +35,8 @@ type Ident struct {
 	CertExtra []byte // extra payload declared in the certificate after the 4 type bytes
 }
 
-func u16(v int) []byte { b := make([]byte, 2); binary.BigEndian.PutUint16(b, uint16(v)); return b }
-func u32(v uint32) []byte { b := make([]byte, 4); binary.BigEndian.PutUint32(b, v); return b }
+func u16(v int) []byte     { b := make([]byte, 2); binary.BigEndian.PutUint16(b, uint16(v)); return b }
+func u32(v uint32) []byte  { b := make([]byte, 4); binary.BigEndian.PutUint32(b, v); return b }
 func u64e(v uint64) []byte { b := make([]byte, 8); binary.BigEndian.PutUint64(b, v); return b }
 func cat(bs ...[]byte) []byte {
 	var out []byte
@@ -234,8 +235,12 @@ func genOffline(r *Rng, destSigType int) Offline {
 }
 
 // ---- leases ----
-func genLease(r *Rng) []byte  { return cat(r.Bytes(32), u32(uint32(r.U64())), u64e(r.U64()>>uint(r.Intn(30)))) }
-func genLease2(r *Rng) []byte { return cat(r.Bytes(32), u32(uint32(r.U64())), u32(uint32(r.U64()>>uint(r.Intn(20))))) }
+func genLease(r *Rng) []byte {
+	return cat(r.Bytes(32), u32(uint32(r.U64())), u64e(r.U64()>>uint(r.Intn(30))))
+}
+func genLease2(r *Rng) []byte {
+	return cat(r.Bytes(32), u32(uint32(r.U64())), u32(uint32(r.U64()>>uint(r.Intn(20)))))
+}
 
 // ---- LeaseSet (v1) ----
 type LeaseSetV struct {
@@ -308,17 +313,30 @@ func (h LS2Header) FinalSigLen() int {
 }
 func genLS2Header(r *Rng) LS2Header {
 	h := LS2Header{Dest: genDestIdent(r), Published: uint32(r.U64() >> uint(32+r.Intn(3))), Expires: uint16(r.U64()), Options: genSmallKVs(r)}
+	if forceCurrentOffline || r.Intn(4) == 0 {
+		// current: published within the last minutes and not yet expired on the harness clock
+		// (time-dependent accessors take a different path for current structures)
+		h.Published = uint32(time.Now().Unix()) - uint32(r.Intn(300))
+		h.Expires = 600 + uint16(r.Intn(60000))
+	}
 	h.Flags = uint16(r.Intn(4)) << 1 // unpublished / blinded bits
 	if r.Intn(8) == 0 {
 		h.Flags |= uint16(1) << uint(3+r.Intn(13)) // reserved bits are only logged by LeaseSet2
 	}
-	if r.Intn(3) == 0 {
+	if forceCurrentOffline || r.Intn(3) == 0 {
 		o := genOffline(r, h.Dest.SigType)
+		if forceCurrentOffline {
+			o.Expires = uint32(time.Now().Unix()) + 3600
+		}
 		h.Offline = &o
 		h.Flags |= 1
 	}
 	return h
 }
+
+// forceCurrentOffline makes genLS2Header produce a structure that is current on the harness
+// clock and uses offline keys (set by checks that need that combination deterministically)
+var forceCurrentOffline bool
 
 type LeaseSet2V struct {
 	H      LS2Header
@@ -449,9 +467,33 @@ func genRouterAddr(r *Rng) RouterAddrV {
 	if r.Intn(4) == 0 {
 		a.Date = r.U64()
 	}
-	switch r.Intn(4) {
+	switch r.Intn(5) {
 	case 0:
 		a.Opts = genSmallKVs(r)
+	case 1:
+		// any subset of the well-known transport options, values from pools that include the
+		// empty string, in canonical or arbitrary wire order
+		pools := map[string][]string{
+			"host": {"192.0.2.7", "::1", "::ffff:192.0.2.7", "2001:db8::1", "example.org", "", "1.2.3"},
+			"port": {"12345", "0", "65536", "", "80 "},
+			"caps": {"", "4", "6", "46", "BC", "B6"},
+			"s":    {"", string(r.Bytes(32)), "x"},
+			"i":    {"", string(r.Bytes(16))},
+			"v":    {"2", ""},
+			"mtu":  {"1500", ""},
+		}
+		for _, k := range []string{"caps", "host", "i", "mtu", "port", "s", "v"} {
+			if r.Bool() {
+				vs := pools[k]
+				a.Opts = append(a.Opts, KV{[]byte(k), []byte(vs[r.Intn(len(vs))])})
+			}
+		}
+		if r.Intn(3) == 0 {
+			for j := len(a.Opts) - 1; j > 0; j-- {
+				k := r.Intn(j + 1)
+				a.Opts[j], a.Opts[k] = a.Opts[k], a.Opts[j]
+			}
+		}
 	default:
 		a.Opts = sortKVs([]KV{{[]byte("host"), []byte("192.0.2.7")}, {[]byte("port"), []byte("12345")}, {[]byte("v"), []byte("2")}})
 		if r.Bool() {
